@@ -607,8 +607,8 @@ PROPS['C15'] = dict(
     min_evaluations=dict(quick=100000, thorough=2000000),
     required_classes=['input:valid', 'input:truncate', 'input:replace', 'input:truncated', 'input:dense'],
     technique='differential property testing across six in-process build configurations of the library (rapidcheck + seeded PRNG)',
-    assumptions=['the dynamic-dispatch resolver selects AVX2 on this host; its SSE branch is exercised through the static westmere '
-                 'configuration only', 'g++ only: the dynamic-dispatch configuration does not link with clang 14'],
+    assumptions=['the dynamic-dispatch resolver selects AVX2 on this host; the SSE clones of the dispatch build are called directly by the '
+                 'second harness, the resolver\'s own choice of the SSE branch cannot be exercised here', 'g++ only: the dynamic-dispatch configuration does not link with clang 14'],
 )
 
 
